@@ -51,6 +51,26 @@ CHECKS = {
         text="Generated trees of real module files (depth <= 3, dotted paths, sub-directories): get_fcp(root) by absolute and relative path must equal the parse of the inlined text and the tree built from the description; one injected fault (illegal character, unterminated declaration, undeclared type, missing file) must yield an Err naming the module/file.",
         note="Trusted: vlib/modules.py. Module path components are unique within a tree.",
         ref="4/C20"),
+    "C05": dict(
+        technique="property-based differential testing: generated DBC read back by an independent reader and by cantools, frames packed with the reference layout decoded through the DBC",
+        text="Generated CAN schemas (<= 64 bits per message, every leaf kind, big-endian, mux, several buses); each generated file is parsed by an own DBC reader and by cantools and compared signal by signal with the reference layout; frames packed from generated values decode through the DBC to the original values.",
+        note="Trusted: vlib/reflayout.py, vlib/dbcreader.py, cantools as a second reader. Signal blocks only on top-level scalar fields.",
+        ref="4/C05"),
+    "C09": dict(
+        technique="exhaustive small-scope enumeration (factorised, itertools.product over 16 processes) plus property-based testing with injected violations, against a reference predicate",
+        text="Thorough enumerates ~1.17M small trees completely in three factors (structs x enums, binding lists x declared structs, services x devices) under three check configurations and compares verify() with a 30-line reference predicate, including equality of the verdict across all permutations; quick samples 1/50 of the permutation groups; larger random schemas with injected violations go through the real front end.",
+        note="Trusted: vlib/specverifier.py. Plug-in clauses are three-valued where the statement is silent (non-CAN bindings, id-less bindings).",
+        ref="4/C09"),
+    "C10": dict(
+        technique="property-based fault-sequence testing with directory snapshots and a recording wrapper around the plug-in",
+        text="Generated (schema, injected violation, generator, entry point, pre-existing directory content) cases run GeneratorManager.generate and the click command on a scratch directory; rejected schemas must report an error and leave the snapshot unchanged, accepted ones must write exactly the files and contents the plug-in returned.",
+        note="Trusted: reference predicate (C09) for must-fail/must-pass, the library's verifier where the statement is silent.",
+        ref="4/C10"),
+    "C14": dict(
+        technique="property-based boundary testing around the 64-bit limit with placement classes, reference size as oracle, regex/own-reader validation of emitted signals",
+        text="Generated CAN bindings of reference size 57..200 bits (bulk in any field, nested struct, array or enum) and with variable-size fields at any depth; DBC and C generation must fail and emit nothing for non-fitting messages, and every signal in successfully generated DBC/C output must lie inside its message without overlap.",
+        note="Trusted: vlib/reflayout.py for the size; an exception counts as failure.",
+        ref="4/C14"),
 }
 
 PENDING = {}
